@@ -72,7 +72,7 @@ def run(ctx):
     nds = {}
     for target in ((None, 53, 17, 1, 255, 54, 0) if big else (None, 17, 54)):
         tv = 53 if target is None else target
-        for n in ([0, 1, 2, 3, 4, 5, 6, 20, 100, 300] if big else [0, 1, 3, 4, 5, 6, 40, 150]):
+        for n in ([0, 1, 2, 3, 4, 5, 6, 20, 100, 300] + [32 * q + d for q in range(1, 9) for d in (2, 3, 4, 5)] if big else [0, 1, 3, 4, 5, 6, 40, 150, 34, 35, 36, 67, 68, 99, 100, 131]):   # incl. both sides of every step of the threshold (8n-28)//256
             data = text(n) if n % 2 else rb(n)
             e = dict(op='nil', target=tv, data=B(data), raised='', obs=[])
             try:
